@@ -10,6 +10,7 @@ import (
 	"fmt"
 	"go/ast"
 	"go/parser"
+	"go/printer"
 	"go/token"
 	"os"
 	"os/exec"
@@ -81,6 +82,8 @@ import (
 	"reflect"
 	"runtime"
 	"time"
+
+	zzclock "github.com/plgd-dev/go-coap/v3/pkg/errors"
 )
 
 type zzCase struct {
@@ -107,6 +110,15 @@ var (
 )
 
 func zzReset(c *zzCase) {
+	var seq []int64
+	for k := 0; ; k++ {
+		v, ok := c.Inputs[fmt.Sprintf("now#%d", k)]
+		if !ok {
+			break
+		}
+		seq = append(seq, int64(v))
+	}
+	zzclock.ZZClockSet(seq)
 	zzCur = c
 	zzSeq = map[string]int{}
 	zzChooseI = 0
@@ -173,8 +185,8 @@ func symObserve(name string, v interface{}) {
 	zzObserved = append(zzObserved, zzObs{name, zzRender(v)})
 }
 func symLoopBound(n int)     {}
-func symSetNow(t time.Time)  {}
-func symUnpinNow()           {}
+func symSetNow(t time.Time)  { zzclock.ZZClockPin(t) }
+func symUnpinNow()           { zzclock.ZZClockUnpin() }
 func symYield()              { runtime.Gosched() }
 func symWaitUntil(f func() bool) {
 	for !f() {
@@ -313,6 +325,154 @@ func TestZZReplay(t *testing.T) {
 	return sb.String()
 }
 
+const clockFile = `package errors
+
+import (
+	"sync"
+	"time"
+)
+
+// Native counterpart of the engine's clock model: time.Now() calls in the packages rewritten for replay return the
+// instants now#0, now#1, ... of the solver's model, in call order.
+var (
+	zzClockMu  sync.Mutex
+	zzClockSeq []int64
+	zzClockI   int
+	zzClockPin *time.Time
+)
+
+func ZZClockSet(seq []int64) {
+	zzClockMu.Lock()
+	zzClockSeq, zzClockI, zzClockPin = seq, 0, nil
+	zzClockMu.Unlock()
+}
+
+func ZZClockPin(t time.Time) {
+	zzClockMu.Lock()
+	zzClockPin = &t
+	zzClockMu.Unlock()
+}
+
+func ZZClockUnpin() {
+	zzClockMu.Lock()
+	zzClockPin = nil
+	zzClockMu.Unlock()
+}
+
+func ZZClockNow() time.Time {
+	zzClockMu.Lock()
+	defer zzClockMu.Unlock()
+	if zzClockPin != nil {
+		return *zzClockPin
+	}
+	if zzClockI < len(zzClockSeq) {
+		v := zzClockSeq[zzClockI]
+		zzClockI++
+		return time.Unix(0, v)
+	}
+	if len(zzClockSeq) > 0 {
+		return time.Unix(0, zzClockSeq[len(zzClockSeq)-1])
+	}
+	return time.Now()
+}
+`
+
+// clockOverlay rewrites time.Now()/time.Since()/time.Until() in the non-test files of the given package directories so
+// that the native replay sees the instants of the solver's model. The rewritten copies live in scratch.
+func clockOverlay(repo string, dirs []string, scratch string, replace map[string]string) error {
+	for di, dir := range dirs {
+		ents, err := os.ReadDir(filepath.Join(repo, dir))
+		if err != nil {
+			return err
+		}
+		for _, e := range ents {
+			name := e.Name()
+			if e.IsDir() || !strings.HasSuffix(name, ".go") || strings.HasSuffix(name, "_test.go") {
+				continue
+			}
+			path := filepath.Join(repo, dir, name)
+			fset := token.NewFileSet()
+			f, err := parser.ParseFile(fset, path, nil, parser.ParseComments)
+			if err != nil {
+				return err
+			}
+			timeName := ""
+			for _, im := range f.Imports {
+				if im.Path.Value == "\"time\"" {
+					timeName = "time"
+					if im.Name != nil {
+						timeName = im.Name.Name
+					}
+				}
+			}
+			if timeName == "" {
+				continue
+			}
+			changed := false
+			clockCall := func() ast.Expr {
+				return &ast.CallExpr{Fun: &ast.SelectorExpr{X: ast.NewIdent("zzclock"), Sel: ast.NewIdent("ZZClockNow")}}
+			}
+			ast.Inspect(f, func(n ast.Node) bool {
+				call, ok := n.(*ast.CallExpr)
+				if !ok {
+					return true
+				}
+				sel, ok := call.Fun.(*ast.SelectorExpr)
+				if !ok {
+					return true
+				}
+				id, ok := sel.X.(*ast.Ident)
+				if !ok || id.Name != timeName {
+					return true
+				}
+				switch sel.Sel.Name {
+				case "Now":
+					if len(call.Args) == 0 {
+						call.Fun = &ast.SelectorExpr{X: ast.NewIdent("zzclock"), Sel: ast.NewIdent("ZZClockNow")}
+						changed = true
+					}
+				case "Since":
+					if len(call.Args) == 1 {
+						call.Fun = &ast.SelectorExpr{X: clockCall(), Sel: ast.NewIdent("Sub")}
+						changed = true
+					}
+				case "Until":
+					if len(call.Args) == 1 {
+						arg := call.Args[0]
+						call.Fun = &ast.SelectorExpr{X: &ast.ParenExpr{X: arg}, Sel: ast.NewIdent("Sub")}
+						call.Args = []ast.Expr{clockCall()}
+						changed = true
+					}
+				}
+				return true
+			})
+			if !changed {
+				continue
+			}
+			var sb strings.Builder
+			if err := printer.Fprint(&sb, fset, f); err != nil {
+				return err
+			}
+			src := sb.String()
+			// add the clock import and keep the time import used
+			idx := strings.Index(src, "import (")
+			if idx >= 0 {
+				src = src[:idx+len("import (")] + "\n\tzzclock \"github.com/plgd-dev/go-coap/v3/pkg/errors\"" + src[idx+len("import ("):]
+			} else {
+				pk := strings.Index(src, "\nimport ")
+				src = src[:pk+1] + "import zzclock \"github.com/plgd-dev/go-coap/v3/pkg/errors\"\n" + src[pk+1:]
+			}
+			src += "\nvar _ " + timeName + ".Duration\n"
+			out := filepath.Join(scratch, fmt.Sprintf("clock_%d_%s", di, name))
+			if err := os.WriteFile(out, []byte(src), 0o644); err != nil {
+				return err
+			}
+			replace[path] = out
+		}
+	}
+	return nil
+}
+
 // harnessFuncs lists the zz* functions without parameters declared in a harness file.
 func harnessFuncs(file string) ([]string, error) {
 	fset := token.NewFileSet()
@@ -335,7 +495,7 @@ func harnessFuncs(file string) ([]string, error) {
 }
 
 // runNative executes the cases of one package natively and returns the results by case id.
-func runNative(repo, verif, pkgDir, pkgName string, harnessFiles []string, cases []nativeCase, keepDir string) (map[int]nativeResult, string, error) {
+func runNative(repo, verif, pkgDir, pkgName string, harnessFiles []string, clockDirs []string, cases []nativeCase, keepDir string) (map[int]nativeResult, string, error) {
 	scratch, err := os.MkdirTemp("", "gosym-native-")
 	if err != nil {
 		return nil, "", err
@@ -362,6 +522,14 @@ func runNative(repo, verif, pkgDir, pkgName string, harnessFiles []string, cases
 	}
 	drvPath, err := write("zz_verif_replay_test.go", nativeDriver(pkgName, allFuncs))
 	if err != nil {
+		return nil, "", err
+	}
+	clkPath, err := write("zz_verif_clock.go", clockFile)
+	if err != nil {
+		return nil, "", err
+	}
+	replace[filepath.Join(repo, "pkg/errors", "zz_verif_clock.go")] = clkPath
+	if err := clockOverlay(repo, clockDirs, scratch, replace); err != nil {
 		return nil, "", err
 	}
 	replace[filepath.Join(repo, pkgDir, "zz_verif_sym.go")] = symPath
@@ -428,9 +596,14 @@ func runNative(repo, verif, pkgDir, pkgName string, harnessFiles []string, cases
 	}
 	if keepDir != "" {
 		os.MkdirAll(keepDir, 0o755)
-		for _, f := range []string{"zz_verif_sym.go", "zz_verif_replay_test.go", "cases.json", "out.jsonl"} {
-			if b, err := os.ReadFile(filepath.Join(scratch, f)); err == nil {
-				os.WriteFile(filepath.Join(keepDir, f), b, 0o644)
+		if ents, err := os.ReadDir(scratch); err == nil {
+			for _, e := range ents {
+				if e.Name() == "overlay.json" {
+					continue
+				}
+				if b, err := os.ReadFile(filepath.Join(scratch, e.Name())); err == nil {
+					os.WriteFile(filepath.Join(keepDir, e.Name()), b, 0o644)
+				}
 			}
 		}
 		// overlay with stable paths
